@@ -150,6 +150,9 @@ class Module:
 GENERATED = ("tucan/parser/tucanParser.py", "tucan/parser/tucanLexer.py", "tucan/parser/tucanListener.py")
 
 
+ATTRIBUTE_NAMES_FILE = "tucan/graph_attributes.py"
+
+
 class Repo:
     """The tree under analysis.  `overlay` maps repo-relative paths to replacement
     text (or None for 'deleted'); it is how self-validation variants are analysed
@@ -173,6 +176,13 @@ class Repo:
         return (self.root / rel).is_file()
 
     def text(self, rel: str) -> str:
+        if rel == ATTRIBUTE_NAMES_FILE:
+            if "_attr_names_text" not in self.__dict__:
+                self._attr_names_text, self.attribute_names_note = self._normalised_attribute_names()
+            return self._attr_names_text
+        return self.raw_text(rel)
+
+    def raw_text(self, rel: str) -> str:
         if rel in self.overlay:
             t = self.overlay[rel]
             if t is None:
@@ -182,6 +192,60 @@ class Repo:
         if not p.is_file():
             raise AnalysisError(f"anchor file vanished: {rel}")
         return p.read_text()
+
+    def _normalised_attribute_names(self) -> tuple[str, str]:
+        """The names under which the attributes are stored in the graph (tucan/graph_attributes.py: CHG = "chg", ...) are
+        spelled once and used through the constants everywhere, so their spelling is no behaviour of the pipeline.  The
+        analysis reads every such constant as the lower-case form of its own name -- the vocabulary the rules are written
+        in -- provided that (a) the spellings are pairwise different and (b) no other tucan source writes one of the
+        spellings (old or normalised) as a literal in the place of a key, where it would have to agree with the constant."""
+        raw = self.raw_text(ATTRIBUTE_NAMES_FILE)
+        try:
+            tree = ast.parse(raw)
+        except SyntaxError:
+            return raw, "not normalised (syntax error)"
+        consts = []
+        for st in tree.body:
+            if isinstance(st, ast.Assign) and len(st.targets) == 1 and isinstance(st.targets[0], ast.Name) and st.targets[0].id.isupper() \
+                    and isinstance(st.value, ast.Constant) and isinstance(st.value.value, str):
+                consts.append((st.targets[0].id, st.value))
+        actual = [v.value for _n, v in consts]
+        roles = [n.lower() for n, _v in consts]
+        if not consts or all(a == r for a, r in zip(actual, roles)):
+            return raw, "spellings are the lower-case constant names already"
+        if len(set(actual)) != len(actual):
+            return raw, "not normalised: two constants share a spelling"
+        words = set(actual) | set(roles)
+        for rel in self.py_files():
+            if rel == ATTRIBUTE_NAMES_FILE or rel in GENERATED:
+                continue
+            try:
+                t2 = ast.parse(self.raw_text(rel))
+            except SyntaxError:
+                continue
+            for n in ast.walk(t2):
+                keys = []
+                if isinstance(n, ast.Subscript) and isinstance(n.slice, ast.Constant):
+                    keys.append(n.slice)
+                elif isinstance(n, ast.Dict):
+                    keys += [k for k in n.keys if isinstance(k, ast.Constant)]
+                elif isinstance(n, ast.Compare) and isinstance(n.left, ast.Constant) and any(isinstance(o, (ast.In, ast.NotIn)) for o in n.ops):
+                    keys.append(n.left)
+                elif isinstance(n, ast.Call):
+                    keys += [a for a in n.args if isinstance(a, ast.Constant)] + [k.value for k in n.keywords if isinstance(k.value, ast.Constant)]
+                for k in keys:
+                    if isinstance(k.value, str) and k.value in words:
+                        return raw, f"not normalised: {rel}:{k.lineno} writes the spelling {k.value!r} as a literal"
+        lines = raw.split("\n")
+        # replace from the last constant to the first so that columns stay valid
+        for name, v in sorted(consts, key=lambda c: (c[1].lineno, c[1].col_offset), reverse=True):
+            if v.lineno != v.end_lineno:
+                return raw, "not normalised (a spelling spans lines)"
+            ln = lines[v.lineno - 1]
+            b = ln.encode()
+            lines[v.lineno - 1] = (b[:v.col_offset] + repr(name.lower()).encode() + b[v.end_col_offset:]).decode()
+        changed = [f"{n}={a!r}" for (n, _v), a, r in zip(consts, actual, roles) if a != r]
+        return "\n".join(lines), "read as the lower-case constant names: " + ", ".join(changed)
 
     def py_files(self) -> list[str]:
         out = set()
